@@ -140,6 +140,8 @@ pub enum RangeMode {
 pub enum StrayKind {
     /// a name that is not hexadecimal (also 64-character names with one non-hex character)
     NonHex,
+    /// 64 lower-case hex characters followed by white space (not a 64-character name)
+    HexPadded,
     /// lower-case hex, 62 or 63 characters
     HexShort,
     /// lower-case hex, 65 or 66 characters
@@ -245,6 +247,7 @@ fn stray_kind() -> BoxedStrategy<StrayKind> {
     prop::sample::select(vec![
         StrayKind::NonHex,
         StrayKind::NonHex,
+        StrayKind::HexPadded,
         StrayKind::HexShort,
         StrayKind::HexLong,
         StrayKind::TmpOfExisting,
@@ -259,32 +262,50 @@ fn stray_kind() -> BoxedStrategy<StrayKind> {
 }
 
 fn op(max: u32, strays: bool) -> BoxedStrategy<Op> {
-    let stray_w = if strays { 9 } else { 0 };
-    prop_oneof![
-        30 => (file_tp(), id_sel(), content(max), cuts())
-            .prop_map(|(tp, id, content, cuts)| Op::Write { tp, id, content, cuts }),
-        5 => (content(max), cuts()).prop_map(|(content, cuts)| Op::WriteConfig { content, cuts }),
-        8 => any::<u16>().prop_map(|pick| Op::ReadFull { pick }),
-        22 => (
-            any::<u16>(),
-            prop_oneof![
-                4 => Just(RangeMode::Generic),
-                1 => Just(RangeMode::Whole),
-                2 => Just(RangeMode::ZeroLen),
-                4 => Just(RangeMode::Inside),
-                1 => Just(RangeMode::Tail),
-            ],
-            any::<u32>(),
-            any::<u32>()
-        )
-            .prop_map(|(pick, mode, a, b)| Op::ReadPartial { pick, mode, a, b }),
-        5 => any_tp().prop_map(|tp| Op::List { tp }),
-        5 => any_tp().prop_map(|tp| Op::ListWithSize { tp }),
-        10 => any::<u16>().prop_map(|pick| Op::Remove { pick }),
-        stray_w => (stray_kind(), file_tp(), 0u8..6, any::<u16>(), any::<u64>(), 0u16..300)
-            .prop_map(|(kind, tp, place, pick, seed, len)| Op::Stray { kind, tp, place, pick, seed, len }),
-    ]
-    .boxed()
+    let mut v: Vec<(u32, BoxedStrategy<Op>)> = vec![
+        (
+            30,
+            (file_tp(), id_sel(), content(max), cuts())
+                .prop_map(|(tp, id, content, cuts)| Op::Write { tp, id, content, cuts })
+                .boxed(),
+        ),
+        (
+            5,
+            (content(max), cuts())
+                .prop_map(|(content, cuts)| Op::WriteConfig { content, cuts })
+                .boxed(),
+        ),
+        (8, any::<u16>().prop_map(|pick| Op::ReadFull { pick }).boxed()),
+        (
+            22,
+            (
+                any::<u16>(),
+                prop_oneof![
+                    4 => Just(RangeMode::Generic),
+                    1 => Just(RangeMode::Whole),
+                    2 => Just(RangeMode::ZeroLen),
+                    4 => Just(RangeMode::Inside),
+                    1 => Just(RangeMode::Tail),
+                ],
+                any::<u32>(),
+                any::<u32>(),
+            )
+                .prop_map(|(pick, mode, a, b)| Op::ReadPartial { pick, mode, a, b })
+                .boxed(),
+        ),
+        (5, any_tp().prop_map(|tp| Op::List { tp }).boxed()),
+        (5, any_tp().prop_map(|tp| Op::ListWithSize { tp }).boxed()),
+        (10, any::<u16>().prop_map(|pick| Op::Remove { pick }).boxed()),
+    ];
+    if strays {
+        v.push((
+            9,
+            (stray_kind(), file_tp(), 0u8..6, any::<u16>(), any::<u64>(), 0u16..300)
+                .prop_map(|(kind, tp, place, pick, seed, len)| Op::Stray { kind, tp, place, pick, seed, len })
+                .boxed(),
+        ));
+    }
+    prop::strategy::Union::new_weighted(v).boxed()
 }
 
 fn map_strategy(ctx: &Ctx, subject: Subject) -> BoxedStrategy<MapCase> {
@@ -370,19 +391,22 @@ fn be_create(be: &Be) -> Result<(), String> {
     call("create()", || be.create())
 }
 
+/// The content as a `BytesList` of 1..4 fragments. Fragments are never empty (except the single
+/// fragment of an empty file): the library's packer never adds an empty `Bytes` to a list.
 fn bytes_list(data: &[u8], cuts: &[u16]) -> BytesList {
-    if cuts.is_empty() {
+    if cuts.is_empty() || data.len() < 2 {
         return BytesList::from(Bytes::copy_from_slice(data));
     }
+    // cut positions in 1..len
     let mut pos: Vec<usize> = cuts
         .iter()
-        .map(|c| ((*c as usize) * (data.len() + 1)) >> 16)
+        .map(|c| 1 + (((*c as usize) * (data.len() - 1)) >> 16))
         .collect();
     pos.sort_unstable();
+    pos.dedup();
     let mut list = BytesList::default();
     let mut from = 0usize;
     for p in pos {
-        // empty fragments are kept on purpose
         list.add(Bytes::copy_from_slice(&data[from..p]));
         from = p;
     }
@@ -574,12 +598,16 @@ fn plant(
                 format!("{h63}g"),
                 format!("{}-a", &h63[..62]),
                 format!("{}.bak", hex_name(seed, 64)),
-                format!("{} ", hex_name(seed, 64)),
                 "sn\u{e4}pshot".to_string(),
                 format!("{}\u{e4}", &h63[..62]),
             ];
             let name = &names[pick_idx(pick, names.len())];
             write(type_dir(root, tp, place, None).join(name)).then_some("stray_nonhex")
+        }
+        StrayKind::HexPadded => {
+            let pad = [" ", "  ", "\t"][pick_idx(pick, 3)];
+            let name = format!("{}{pad}", hex_name(seed, 64));
+            write(type_dir(root, tp, place, None).join(name)).then_some("stray_hex_padded")
         }
         StrayKind::HexShort => {
             let n = if seed & 1 == 0 { 63 } else { 62 };
@@ -682,6 +710,8 @@ fn range_of(mode: RangeMode, a: u32, b: u32, n: usize) -> (usize, usize) {
     }
 }
 
+pub const KEY_FS_PADDED: &str = "opendal-fs-lists-whitespace-padded-name";
+
 fn run_map(c: &MapCase, _ctx: &Ctx) -> Outcome {
     let subject = c.subject;
     let mut out = Outcome::pass();
@@ -697,6 +727,13 @@ fn run_map(c: &MapCase, _ctx: &Ctx) -> Outcome {
     };
     if let Err(e) = be_create(&be) {
         return fail(out, 0, "create", e);
+    }
+
+    // input-side predicate of a finding: opendal's fs lister trims white space off entry names
+    if subject == Subject::OpendalFs
+        && c.ops.iter().any(|o| matches!(o, Op::Stray { kind: StrayKind::HexPadded, .. }))
+    {
+        out = out.known(KEY_FS_PADDED);
     }
 
     let mut model: Model = BTreeMap::new();
@@ -1316,7 +1353,7 @@ pub fn spec() -> PropSpec {
     PropSpec {
         id: "C20",
         level: "exploration",
-        rule: "proptest. map_*: sequences of 1..40 ops {write fresh (type,id) 30, write/overwrite config 5, read_full 8, read_partial 22 (generic / whole / zero-length incl. at EOF / strictly inside / tail), list 5, list_with_size 5, remove existing 10, plant stray 9 (directory subjects only)} on LocalBackend, OpenDALBackend(fs), OpenDALBackend(memory), InMemoryBackend; contents zeros/periodic/random of 0 B..256 KiB (quick) / ..8 MiB (thorough) written as 1..4 BytesList fragments (empty fragments included); ids: first byte from {00,0a,ab,ff} (60 %), arbitrary, equal to an existing id of another type, or an existing id with one byte changed; strays: non-hex names (incl. 64 chars with one non-hex char, hex+'.bak'), 62/63/65/66-char hex, `<id>-tmp-` of existing and of absent ids, sub-directories with content, a directory named like an id, root-level files, a foreign `locks/` directory. Non-trivial = at least one ranged read strictly inside a file > 4 KiB, at least one remove followed by a listing, and (directory subjects) at least one stray entry planted. publish: 0..4 prepared files + optional config + optional stale tmp leftover, then one observed write (fresh id or config); non-trivial = non-empty content on a non-empty prepared state. concurrent: 2..6 writes of 200 KiB..1 MiB (thorough ..8 MiB) with a polling lister/reader thread; non-trivial = at least 2 writes and 2 polls. Distinct by hash of the case.",
+        rule: "proptest. map_*: sequences of 1..40 ops {write fresh (type,id) 30, write/overwrite config 5, read_full 8, read_partial 22 (generic / whole / zero-length incl. at EOF / strictly inside / tail), list 5, list_with_size 5, remove existing 10, plant stray 9 (directory subjects only)} on LocalBackend, OpenDALBackend(fs), OpenDALBackend(memory), InMemoryBackend; contents zeros/periodic/random of 0 B..256 KiB (quick) / ..8 MiB (thorough) written as 1..4 non-empty BytesList fragments; ids: first byte from {00,0a,ab,ff} (60 %), arbitrary, equal to an existing id of another type, or an existing id with one byte changed; strays: non-hex names (incl. 64 chars with one non-hex char, hex+'.bak'), 64 hex + trailing white space, 62/63/65/66-char hex, `<id>-tmp-` of existing and of absent ids, sub-directories with content, a directory named like an id, root-level files, a foreign `locks/` directory. Non-trivial = at least one ranged read strictly inside a file > 4 KiB, at least one remove followed by a listing, and (directory subjects) at least one stray entry planted. publish: 0..4 prepared files + optional config + optional stale tmp leftover, then one observed write (fresh id or config); non-trivial = non-empty content on a non-empty prepared state. concurrent: 2..6 writes of 200 KiB..1 MiB (thorough ..8 MiB) with a polling lister/reader thread; non-trivial = at least 2 writes and 2 polls. Distinct by hash of the case.",
         assumptions: vec![
             "ops on missing files, overwrites of non-config files, out-of-range reads and upper-case 64-hex stray names are not generated (outside the statement)",
             "id-named (64 lower-case hex) regular files in a wrong directory are not planted: the statement's mechanism defines an id file by its name",
